@@ -78,7 +78,8 @@ def adjOK (cfg : Cfg) : Tok → List Char → Prop
       if k = 'x' then takeHex cfg 2 0 rest = none
       else if k = 'u' then takeHex cfg 4 0 rest = none
       else if k = 'U' then takeHex cfg 8 0 rest = none
-      else noBraceAhead rest
+      else cfg.raw = true → noBraceAhead rest      -- `\N{…}` is a token of its own only under RAWCHARS (D38)
+  | .named _, _ => cfg.raw = true                 -- without RAWCHARS the scanner has no such token: `\N`, then ordinary text
   | _, _ => True
 
 def Adjacent (cfg : Cfg) : List Tok → Prop
